@@ -40,39 +40,10 @@ fn leaf(v: u8) -> SteelVal {
     SteelVal::IntV(v as isize)
 }
 
-/// One side: an outer pair whose two children are each a leaf or an inner pair of two leaves;
-/// `share`: the second child is the SAME object as the first (internal sharing).
-#[derive(Clone, Copy)]
-struct Desc {
-    inner1: bool,
-    a: [u8; 2],
-    share: bool,
-    inner2: bool,
-    b: [u8; 2],
-}
-fn any_desc() -> Desc {
-    let d = Desc { inner1: kani::any(), a: [kani::any(), kani::any()], share: kani::any(), inner2: kani::any(), b: [kani::any(), kani::any()] };
-    kani::assume(d.a[0] < 3 && d.a[1] < 3 && d.b[0] < 3 && d.b[1] < 3);
-    d
-}
-fn child(inner: bool, v: [u8; 2]) -> SteelVal {
-    if inner {
-        cons(leaf(v[0]), leaf(v[1]))
-    } else {
-        leaf(v[0])
-    }
-}
-fn build(d: &Desc) -> SteelVal {
-    let c1 = child(d.inner1, d.a);
-    let c2 = if d.share { c1.clone() } else { child(d.inner2, d.b) };
-    cons(c1, c2)
-}
-// the mathematical value of a side: (kind, leaves) of each child
-fn norm(d: &Desc) -> ((bool, u8, u8), (bool, u8, u8)) {
-    let k = |inner: bool, v: [u8; 2]| (inner, v[0], if inner { v[1] } else { 0 });
-    let c1 = k(d.inner1, d.a);
-    let c2 = if d.share { c1 } else { k(d.inner2, d.b) };
-    (c1, c2)
+fn any_leaf() -> u8 {
+    let v: u8 = kani::any();
+    kani::assume(v < 3);
+    v
 }
 
 fn real_eq(a: &SteelVal, b: &SteelVal) -> bool {
@@ -90,46 +61,90 @@ fn real_eq(a: &SteelVal, b: &SteelVal) -> bool {
     res
 }
 
-#[kani::proof]
-#[kani::unwind(14)]
-#[kani::stub(std::rt::thread_cleanup, noop)]
-#[kani::stub(alloc::fmt::format, fmt_stub)]
-#[kani::stub(std::collections::HashSet::insert, set_insert_stub)]
-fn eq_pairs_structural() {
-    tag_init();
-    let da = any_desc();
-    let db = any_desc();
-    let a = build(&da);
-    let b = build(&db);
-    let expect = norm(&da) == norm(&db);
-    let got = real_eq(&a, &b);
-    kani::cover!(expect && da.share && !db.share, "equal, sharing on the left only");
-    kani::cover!(!expect && da.share && !db.share && da.inner1, "different, sharing on the left");
-    kani::cover!(expect && !da.share && db.share, "equal, sharing on the right only");
-    kani::cover!(!expect && !da.share && !db.share, "different, no sharing");
-    vassert!(got == expect, "equal? differs from structural equality of the two values");
-    core::mem::forget(a);
-    core::mem::forget(b);
+// The SHAPE of each side is concrete per harness (which children are the same object), the
+// leaves are symbolic.  `shared`: outer pair whose two children are ONE inner pair object;
+// `fresh`: outer pair with two separately allocated inner pairs.
+fn shared(l: [u8; 2]) -> SteelVal {
+    let y = cons(leaf(l[0]), leaf(l[1]));
+    cons(y.clone(), y)
+}
+fn fresh(l: [u8; 4]) -> SteelVal {
+    cons(cons(leaf(l[0]), leaf(l[1])), cons(leaf(l[2]), leaf(l[3])))
 }
 
-#[kani::proof]
-#[kani::unwind(14)]
-#[kani::stub(std::rt::thread_cleanup, noop)]
-#[kani::stub(alloc::fmt::format, fmt_stub)]
-#[kani::stub(std::collections::HashSet::insert, set_insert_stub)]
-fn eq_pairs_equivalence() {
-    tag_init();
-    let da = any_desc();
-    let db = any_desc();
-    let a = build(&da);
-    let b = build(&db);
-    let ab = real_eq(&a, &b);
-    let ba = real_eq(&b, &a);
-    let aa = real_eq(&a, &a);
-    kani::cover!(ab, "equal pair");
-    kani::cover!(!ab, "unequal pair");
-    vassert!(aa, "equal? is not reflexive");
-    vassert!(ab == ba, "equal? is not symmetric");
+macro_rules! eq_harness {
+    ($name:ident, $body:block) => {
+        #[kani::proof]
+        #[kani::unwind(10)]
+        #[kani::stub(std::rt::thread_cleanup, noop)]
+        #[kani::stub(alloc::fmt::format, fmt_stub)]
+        #[kani::stub(std::collections::HashSet::insert, set_insert_stub)]
+        fn $name() {
+            tag_init();
+            $body
+        }
+    };
+}
+
+// (y . y) against two separately built pairs: equal exactly when both built pairs equal y
+eq_harness!(eq_pairs_shared_left, {
+    let l = [any_leaf(), any_leaf()];
+    let r = [any_leaf(), any_leaf(), any_leaf(), any_leaf()];
+    let a = shared(l);
+    let b = fresh(r);
+    let expect = l[0] == r[0] && l[1] == r[1] && l[0] == r[2] && l[1] == r[3];
+    let got = real_eq(&a, &b);
+    kani::cover!(expect, "structurally equal");
+    kani::cover!(!expect && l[0] == r[2] && l[1] == r[3], "first child differs only");
+    kani::cover!(!expect && l[0] == r[0] && l[1] == r[1], "second child differs only");
+    vassert!(got == expect, "equal? differs from structural equality when the left value repeats a sub-object");
     core::mem::forget(a);
     core::mem::forget(b);
-}
+});
+
+eq_harness!(eq_pairs_shared_right, {
+    let l = [any_leaf(), any_leaf(), any_leaf(), any_leaf()];
+    let r = [any_leaf(), any_leaf()];
+    let a = fresh(l);
+    let b = shared(r);
+    let expect = l[0] == r[0] && l[1] == r[1] && l[2] == r[0] && l[3] == r[1];
+    let got = real_eq(&a, &b);
+    kani::cover!(expect, "structurally equal");
+    kani::cover!(!expect && l[2] == r[0] && l[3] == r[1], "first child differs only");
+    kani::cover!(!expect && l[0] == r[0] && l[1] == r[1], "second child differs only");
+    vassert!(got == expect, "equal? differs from structural equality when the right value repeats a sub-object");
+    core::mem::forget(a);
+    core::mem::forget(b);
+});
+
+eq_harness!(eq_pairs_fresh, {
+    let l = [any_leaf(), any_leaf(), any_leaf(), any_leaf()];
+    let r = [any_leaf(), any_leaf(), any_leaf(), any_leaf()];
+    let a = fresh(l);
+    let b = fresh(r);
+    let expect = l[0] == r[0] && l[1] == r[1] && l[2] == r[2] && l[3] == r[3];
+    let got = real_eq(&a, &b);
+    let back = real_eq(&b, &a);
+    kani::cover!(expect, "structurally equal");
+    kani::cover!(!expect, "different");
+    vassert!(got == expect, "equal? differs from structural equality on values without sharing");
+    vassert!(got == back, "equal? is not symmetric");
+    core::mem::forget(a);
+    core::mem::forget(b);
+});
+
+eq_harness!(eq_pairs_shared_both, {
+    let l = [any_leaf(), any_leaf()];
+    let r = [any_leaf(), any_leaf()];
+    let a = shared(l);
+    let b = shared(r);
+    let expect = l[0] == r[0] && l[1] == r[1];
+    let got = real_eq(&a, &b);
+    let refl = real_eq(&a, &a);
+    kani::cover!(expect, "structurally equal");
+    kani::cover!(!expect, "different");
+    vassert!(got == expect, "equal? differs from structural equality when both values repeat a sub-object");
+    vassert!(refl, "equal? is not reflexive");
+    core::mem::forget(a);
+    core::mem::forget(b);
+});
